@@ -12,7 +12,9 @@ template <class F, class E>
 inline void post_api(F& f, E& x, int api) {   // non-const: back11 cannot dispatch const events through chain rows
     if (api == API_PROCESS) f.process_event(x);
     else if (api == API_ENQUEUE) f.enqueue_event(x);
-    else {
+    else if (api == API_CLEARDEF) {
+        if constexpr (F::SIM_CAN_DEFER && requires { f.clear_deferred_queue(); }) f.clear_deferred_queue();
+    } else {
         if constexpr (F::SIM_CAN_DEFER) f.defer_event(x);
     }
 }
